@@ -14,7 +14,7 @@ Blocked == {"ent", "stream", "feecol", "distr", "fees", "bonded", "notbonded", "
 IsAcct(st, a) == a \in DOMAIN st.bal
 BalOf(st, a, d) == IF IsAcct(st, a) /\ d \in DOMAIN st.bal[a] THEN st.bal[a][d] ELSE 0
 
-HasVest(st, a) == "vest" \in DOMAIN st /\ a \in DOMAIN st.vest
+HasVest(st, a) == a \in DOMAIN st.vest
 \* coins still locked by vesting (delayed vesting, nothing vested inside a scenario)
 VestLocked(st, a, d) == IF HasVest(st, a) THEN Max(st.vest[a].orig[d] - st.vest[a].dv[d], 0) ELSE 0
 Spendable(st, a, d) == Max(BalOf(st, a, d) - VestLocked(st, a, d), 0)
